@@ -104,6 +104,10 @@ def enumerated_family():
         Config("M012", "1x0e+1x1o", "1x0e+1x1o", "1x0e+1x1e+1x2e+1x3e",
                [(0, 0, 0, "uvw", True, 1), (1, 1, 0, "uvw", True, 1), (1, 1, 1, "uvw", True, 1), (1, 1, 2, "uvw", True, 1)],
                path_normalization="path"),
+        # the same instruction listed more than once (weighted: two independent weight blocks; unweighted: twice the path)
+        Config("M014", "2x0e+1x1o", "1x0e+1x1o", "2x0e+2x1o+1x0e",
+               [(0, 0, 0, "uvw", True, 1), (0, 0, 0, "uvw", True, 1), (1, 0, 1, "uvw", True, 1), (1, 1, 2, "uvu", False, 1)]),
+        Config("M015", "2x1o", "1x1o", "2x0e+1x1e", [(0, 0, 0, "uvu", False, 1), (0, 0, 0, "uvu", False, 1), (0, 0, 1, "uvw", True, 1)]),
         Config("M013", "2x1o", "2x1o", "2x0e+1x1o+2x1e",
                [(0, 0, 0, "uuu", False, 1), (0, 0, 0, "uvu", True, 1), (0, 0, 2, "uuu", True, 1)], irrep_normalization="norm"),
     ]
@@ -143,6 +147,9 @@ def random_family(rng, n):
                 outs.append((mo, l3, p3))
                 io = len(outs) - 1
             ins.append((a, b, io, mode, weighted, rng.choice([1, 1, 1, 2, Fraction(1, 4)])))
+        # the same instruction listed twice
+        if rng.random() < 0.25:
+            ins.insert(rng.randrange(len(ins) + 1), rng.choice(ins))
         # unreached output entries (their position shifts later slices)
         if rng.random() < 0.4:
             pos = rng.randrange(len(outs) + 1)
